@@ -96,7 +96,7 @@ def main(tier, replay):
         c = ck.cov["counters"]
         for k in ("leak_rows_inactive", "leak_rows_positive_pressure", "windows_off_grid", "leaks_on_J"):
             if not c.get(k):
-                raise common.MachineryError("vacuity: %s = 0" % k)
+                ck.vacuity("vacuity: %s = 0" % k)
     hyd.finish_cov(ck, good, "random networks with 1-3 leaks on junctions and tanks, areas 1e-4..3e-3 m2, Cd in {0.6,0.75,1}, start/end "
                    "on and off the hydraulic grid (incl. +-1 s), open-ended leaks, DD with undersized sources (negative pressure) "
                    "and PDD; every leaky node x reported row is a clause instance; the C01 balance clauses are evaluated on the same "
